@@ -363,7 +363,18 @@ func InstallTempFiles() {
 	Override("os.CreateTemp", dmCreateTemp)
 	Override("(*os.File).Name", dmFileName)
 	Override("(*os.File).Close", dmFileClose)
+	// reading a downloaded document as a whole puts all of it into one buffer (DocSize bytes): visible to
+	// harnesses that bound allocations (C17), harmless elsewhere
+	Override("os.ReadFile", func(name string) ([]byte, error) {
+		if d := Disk[name]; d == nil || !d.Exists {
+			return nil, NewError("open: no such file or directory")
+		}
+		return make([]byte, DocSize), nil
+	})
 }
+
+// DocSize: nominal size of a downloaded CRL document in the world model (the model keeps its content abstractly).
+var DocSize = 1 << 20
 
 // ---- directory listing (os.Stat, filepath.Walk, os.SameFile) ----
 
